@@ -190,6 +190,10 @@ class Screen(_raw_display_base.Screen):
         else:
             self._rows_used = 0
 
+        # the terminal may have lost the G1 designation since the last session (leaving the alternate
+        # buffer restores the saved cursor including its character sets): send it again on the next draw
+        self._setup_G1_done = False
+
         if self.bracketed_paste_mode:
             self.write(escape.ENABLE_BRACKETED_PASTE_MODE)
 
